@@ -119,6 +119,10 @@ func init() {
 			}
 			c.Check(okPerm && nret > 0, funcKey(g)+" :: returns its two arguments, each once", w.pos(g.Pos()), "{lo, hi} = {foo, bar} on every path", "sort32 can return the same key twice or something else than its arguments: one ephemeral key is then not bound into the challenge")
 		}
+		// F32: both ends sign the *same* challenge, so the handshake must refuse its own public key coming back:
+		// an adversary who completed the (unauthenticated) ephemeral exchange can decrypt our authentication
+		// message and reflect it — it verifies, and the "authenticated" remote key is our own
+		c.Check(c.ge().ensures(f, guardRe("the presented key is not our own", `^false\(.*\.Equals\(locPubKey\)\)$|^false\(locPubKey\.Equals\(.*\)\)$`), 1), fk+" ensures the remote key is not the local key (reflected authentication message)", w.pos(f.Pos()), "success only if remPubKey != locPubKey", "the handshake succeeds when the peer sends our own authentication message back: possession of the presented key is not proven")
 		// challenge copied from the extraction; signed and verified value is the same challenge
 		for _, call := range w.callsTo(f, "p2p/conn#signChallenge") {
 			c.Check(w.expr(callArgs(call)[0]) == "&challenge", fk+" :: own signature is over the challenge", w.ipos(call), "signChallenge(&challenge, …)", w.callStr(call))
